@@ -398,11 +398,11 @@ func VNewClient(x *vexp.Ctx, handler Handler, auto bool, script []int) *VClient 
 	return &VClient{Client: c, vc: vc, c: c}
 }
 
-func (v *VClient) Dials() int         { return v.vc.dials }
-func (v *VClient) Live() int          { return v.vc.live() }
-func (v *VClient) Errors() []string   { return v.vc.log.Errors }
-func (v *VClient) Logger() *vLogger   { return v.vc.log }
-func (v *VClient) ServerConns() int   { return len(v.vc.srvs) }
+func (v *VClient) Dials() int       { return v.vc.dials }
+func (v *VClient) Live() int        { return v.vc.live() }
+func (v *VClient) Errors() []string { return v.vc.log.Errors }
+func (v *VClient) Logger() *vLogger { return v.vc.log }
+func (v *VClient) ServerConns() int { return len(v.vc.srvs) }
 
 // RecordServer makes the i-th server connection record what it writes.
 func (v *VClient) ServerWritten(i int) []byte { return v.vc.srvs[i].conn.(*vnet.Conn).Written() }
